@@ -245,6 +245,7 @@ def run(ctx):
 
     check_frame(ctx, pool)
     check_enqueue_callers(ctx, pool, run_f, cl)
+    check_redistribution(ctx, cl, 'R1')
 
     # ---------------------------------------------------------------- R5 verdict, loop condition, guard reset
     oks = [st for st in walk_local(run_f.node) if isinstance(st, ast.Assign) and is_name(st.targets[0], N['ok'])]
@@ -288,6 +289,35 @@ def run(ctx):
                                       and st.value.elts[1].value is False for st in ast.walk(h))
         ctx.check('R6', 'EOF is turned into an artificial closing message', synth, 'Pool.run', 'no-artificial-closing-message',
                   'a bare EOF of a result pipe is not turned into a closing message: the death of that worker is never handled', where=loc(run_f, recv_try))
+
+
+def check_redistribution(ctx, cl, rule):
+    """handle_death keeps offering retried inputs to idle workers for as long as there are any: the loop re-evaluates the retry list"""
+    hd = cl['handle_death']
+    loops = [n for n in walk_local(hd.node) if isinstance(n, (ast.While, ast.For)) and any(isinstance(c.func, ast.Name) and c.func.id == 'try_enqueue' for c in calls_in(n))]
+    ok = len(loops) == 1 and isinstance(loops[0], ast.While) and norm(loops[0].test) == 'self._retries'
+    ctx.check(rule, 'handle_death redistributes while the retry list is non-empty (re-evaluated on every iteration)', ok, 'Pool.run.<handle_death>',
+              'redistribution-loop:' + (norm(loops[0].test if isinstance(loops[0], ast.While) else loops[0].iter) if loops else 'none'),
+              'the redistribution loop of handle_death is not `while self._retries`: an input that goes back to the retry list while the loop is running (a nested death while '
+              're-enqueueing puts its input back after the nested loop has finished) is stranded - the run drains to PoolError("all workers have died") although an idle live worker is left',
+              where=loc(hd, loops[0]) if loops else loc(hd, hd.node))
+    if ok:
+        lp = loops[0]
+        brk = [st for st in walk_local(lp) if isinstance(st, ast.Break)]
+        pm = parent_map(hd.node)
+        conds = []
+        for b in brk:
+            cur = b
+            while cur in pm and cur is not lp:
+                cur = pm[cur]
+                if isinstance(cur, ast.If):
+                    conds.append(norm(cur.test))
+                    break
+        idle_vars = [st.targets[0].id for st in walk_local(lp) if isinstance(st, ast.Assign) and isinstance(st.targets[0], ast.Name) and isinstance(st.value, ast.Call)
+                     and isinstance(st.value.func, ast.Name) and st.value.func.id == 'get_next_idle_worker']
+        ok2 = bool(idle_vars) and all(c == f'{idle_vars[0]} is None' for c in conds)
+        ctx.check(rule, 'the redistribution loop only stops early when no idle live worker is left', ok2, 'Pool.run.<handle_death>', 'redistribution-early-exit:' + ';'.join(conds),
+                  f'the redistribution loop can stop on {conds} while retried inputs and idle workers remain', where=loc(hd, lp))
 
 
 def check_single_append(ctx, run_f, cl, N, rule):
